@@ -487,6 +487,122 @@ func runDECODEBOUNDS(c *Ctx) {
 		c.OK(P.Pos(fn.Pos()), "decoded lengths in "+ir.FuncName(fn), "no constant bound", true)
 	}
 	_ = n
+	// (3) a []byte input is cut at a decoded position only after that position was compared with the bytes left:
+	// buf[:v] / buf[v:] with a run-time v needs `len(buf) < v` (or an equivalent) tested and rejected on every path
+	for _, fn := range P.Funcs {
+		if !set[fn] {
+			continue
+		}
+		for _, b := range fn.Blocks {
+			for _, ins := range b.Instrs {
+				sl, ok := ins.(*ssa.Slice)
+				if !ok {
+					continue
+				}
+				st, ok := sl.X.Type().Underlying().(*types.Slice)
+				if !ok {
+					continue
+				}
+				if bt, ok := st.Elem().Underlying().(*types.Basic); !ok || bt.Kind() != types.Uint8 {
+					continue
+				}
+				if _, isParamRooted := ir.ResolveCell(sl.X).(*ssa.Parameter); !isParamRooted {
+					if _, isExtract := ir.ResolveCell(sl.X).(*ssa.Extract); !isExtract {
+						continue // only the input buffer and what remains of it after a decoding step
+					}
+				}
+				for _, bnd := range []ssa.Value{sl.Low, sl.High} {
+					if bnd == nil {
+						continue
+					}
+					if _, isC := bnd.(*ssa.Const); isC {
+						continue
+					}
+					// the byte count reported by Uvarint is within the buffer by contract (and tested > 0 above)
+					if ex, ok := ir.ResolveCell(bnd).(*ssa.Extract); ok && ex.Index == 1 {
+						if call, ok := ex.Tuple.(*ssa.Call); ok {
+							if sc := ir.Callee(call.Call); sc != nil && (sc.String() == "encoding/binary.Uvarint" || sc.String() == "encoding/binary.Varint") {
+								continue
+							}
+						}
+					}
+					bs, xs := ir.Sym(bnd), ir.Sym(sl.X)
+					what := fmt.Sprintf("%s cut at %s in %s", pathDesc(xs), pathDesc(bs), ir.FuncName(fn))
+					deps := append(ir.LoadDeps(bnd), ir.LoadDeps(sl.X)...)
+					ok := ir.FlowFact(sl, func(f ir.Fact) bool {
+						bin, isBin := f.Cond.(*ssa.BinOp)
+						if !isBin {
+							return false
+						}
+						x, y, op := bin.X, bin.Y, bin.Op
+						// normalise to  len(X) OP v
+						if ir.Sym(x) == bs {
+							x, y = y, x
+							switch op {
+							case token.LSS:
+								op = token.GTR
+							case token.GTR:
+								op = token.LSS
+							case token.LEQ:
+								op = token.GEQ
+							case token.GEQ:
+								op = token.LEQ
+							}
+						}
+						if ir.Sym(y) != bs {
+							return false
+						}
+						lc, isCall := x.(*ssa.Call)
+						if !isCall {
+							return false
+						}
+						if bi, isB := lc.Call.Value.(*ssa.Builtin); !isB || bi.Name() != "len" || ir.Sym(lc.Call.Args[0]) != xs {
+							return false
+						}
+						if !f.Truth {
+							switch op {
+							case token.LSS:
+								op = token.GEQ
+							case token.GTR:
+								op = token.LEQ
+							case token.LEQ:
+								op = token.GTR
+							case token.GEQ:
+								op = token.LSS
+							default:
+								return false
+							}
+						}
+						return op == token.GEQ // len(X) >= v  (len(X) > v would reject exact fits: not accepted as the guard)
+					}, func(i ssa.Instruction) bool {
+						switch y := i.(type) {
+						case *ssa.Store:
+							return ir.MayClobber(ir.Sym(y.Addr), deps)
+						case ssa.CallInstruction:
+							// a call that is handed the address of the length variable rewrites it
+							for _, a := range y.Common().Args {
+								if al, ok := a.(*ssa.Alloc); ok {
+									for _, d := range deps {
+										if d == ir.Sym(al) {
+											return true
+										}
+									}
+								}
+							}
+						}
+						return false
+					})
+					if ok {
+						c.OK(P.InstrPos(sl), what, "compared with the bytes remaining on every path, too-long rejected", false)
+					} else {
+						f := c.Violation(fn, P.InstrPos(sl), "input buffer cut at an unchecked position",
+							"a length read from the node's bytes is used as a slice bound without having been compared with the number of bytes left: a truncated or corrupt node makes the decoder panic (slice bounds out of range) instead of returning an error, so loading a root whose top node is undecodable crashes instead of failing")
+						f.Props = []string{"C19"}
+					}
+				}
+			}
+		}
+	}
 }
 
 func runQUEUED(c *Ctx) {
